@@ -9,9 +9,11 @@ CLAIMED = {
              'NUL-terminated string shorter than PATH_MAX: level_valid(p) is true exactly when no prefix of the component '
              'sequence has negative depth and all components were visited; PathCat forwards base++p only for such p and accepts '
              'every such p that fits.  Bounded CBMC (length <= 7) and a native exhaustive run (length <= 9/13) on the real '
-             'level_valid/PathCat with an independent resolver supply counterexamples.',
-        note=TRUST + ' strlen/memcpy are libc stubs; std::string_view == modelled for the empty end() view only; the 30+ '
-             'forwarding methods of SubFileSystem are not yet under contract (each is `PathCat __(this, path); return underlay->op(path...)`).',
+             'level_valid/PathCat with an independent resolver supply counterexamples.  One generated proof per path-taking operation of '
+             'SubFileSystem (32, read from subfs.cpp on every run): every path argument passes through a PathCat of this sub-filesystem '
+             'and the underlay receives the PathCat result, never the caller\'s pointer.',
+        note=TRUST + ' strlen/memcpy are libc stubs; std::string_view == modelled for the empty end() view only; symlink\'s oldname (link content) '
+             'is exempt by design; SubFileSystem::init and directory iteration are not under contract.',
         technique='deductive verification: CBMC function + loop contracts (goto-instrument --dfcc) on mechanically lowered real code; '
                   'bounded CBMC + native replay for counterexamples',
         design='§6 C20'),
@@ -49,13 +51,20 @@ CLAIMED['C04'] = dict(
     text='Proof (loop-free, all 64-bit inputs): sat_add/sat_sub, Timeout (constructor, timeout(x), timeout(), expired(), timeout_at_most), '
          'thread::set_error_number (an interrupt reason is returned as -1/errno exactly once and cleared, so it cannot end a later sleep), '
          'waitq_translate_errno, do_shutdown_usleep(_defer) (deadline capped at now+10ms, -1 with EPERM unless interrupted) are lowered from '
-         '/repo on every run and verified against their statements.  Bounded: SleepQueue push / pop_front / pop (incl. removal from the '
+         '/repo on every run and verified against their statements; so are thread_yield (consumes the reason it reports), thread_interrupt '
+         '(a sleeper is woken exactly once with the interrupter\'s reason; a reason already parked for a woken thread is never replaced), '
+         'prelocked_thread_interrupt (same-vCPU: out of its heap, READY, run queue; cross-vCPU: STANDBY in the owner\'s standby list), '
+         'prepare_usleep (deadline unchanged, pushed once under thread.lock, queue/thread locks balanced), the wake-up pass '
+         'resume_threads_inlined (Hoare loop rule on both real loops over an abstract heap with one tracked sleeper: EVERY sleeper whose '
+         'deadline has passed is READY in the run queue after the pass, later deadlines stay asleep, nobody is resumed twice) and the '
+         'idler\'s engine-wait computation (never past any sleeper\'s deadline, capped).  Bounded: SleepQueue push / pop_front / pop (incl. removal from the '
          'middle, absent thread) preserve the heap representation invariant and the set of sleepers and pop_front returns an earliest deadline, '
          'for every heap of at most 6 (quick) / 14 (thorough) sleepers with arbitrary 64-bit deadlines.',
-    note=TRUST + ' The heap result is bounded, not a proof. Not decided by contracts: wake-up no later than the first scheduling round after the '
-         'deadline, cross-vCPU interrupt ordering, the context switch (scheduler/assembly).  std::vector is a fixed-capacity array model; '
+    note=TRUST + ' The heap result is bounded, not a proof; the resume pass uses the heap-order property of front() as an assumed contract '
+         '(its bounded check is the sleepq obligations). Not decided by contracts: that scheduling rounds happen (idle loop / run-queue '
+         'rotation as a whole), the standby hand-off across vCPUs as a history, the context switch (assembly), thread_usleep_defer.  std::vector is a fixed-capacity array model; '
          'thread pointers are represented as pool indices.',
-    technique='deductive verification: loop-free full-domain CBMC harnesses on mechanically lowered real code; bounded CBMC for the heap; native replay',
+    technique='deductive verification: loop-free full-domain CBMC harnesses + Hoare loop rule on mechanically lowered real code; bounded CBMC for the heap; native replay on the real scheduler',
     design='§6 C04')
 CLAIMED['C18'] = dict(
     text='Proof (all 64-bit offsets/lengths incl. saturating ends, any number of held ranges): range_t::end/operator</contains, '
@@ -73,10 +82,13 @@ CLAIMED['C12'] = dict(
     text='Proof (loop-free, all inputs) of the per-field kernel the (de)serializers bottom out in, lowered from /repo/rpc/serialize.h on '
          'every run: slice::anchor with arbitrary wire-supplied offset/length yields a string inside the base buffer or an empty one; '
          'string::sv and array::size/begin/end stay inside the field for every length including 0; DeserializerIOV::process_field(buffer&) '
-         'claims exactly the next n supplied bytes or fails cleanly (null, nothing consumed), and consumes nothing for an empty field; '
+         'claims exactly the next n supplied bytes or fails cleanly (null, length 0, nothing consumed), and consumes nothing for an empty field; '
+         'an array of fields never iterates elements of a field that could not be claimed; '
          'SerializerIOV::process_field(buffer&) appends a non-empty field exactly once and never overruns a full vector; '
          'CheckedMessage::validate_checksum accepts exactly when the received checksum equals the hash of the received bytes.  A native '
-         'run drives the real DeserializerIOV/SerializerIOV with hostile descriptors and honest fragmented round trips.',
+         'run drives the real DeserializerIOV/SerializerIOV with hostile descriptors and arrays (input fragmented at every position), honest '
+         'fragmented round trips and single-byte corruption of checked messages.  KNOWN FINDING (known_findings.txt): CheckedMessage\'s CRC '
+         'does not cover the variable-length field bytes.',
     note=TRUST + ' Not decided: the template traversal over message shapes (reduce/process_fields/FilterAlignedFields, nested messages, '
          'sorted_map iteration), the whole-message round trip (induction over fields, not machine-checked), process_field(iovec_array&), '
          'CRC collisions.  iovector::extract_front_continuous is an assumed contract (its view-level core is proved in C14).',
@@ -89,9 +101,11 @@ CLAIMED['C13'] = dict(
          '(Parser::operator[] precondition), stores only (offset,length) pairs inside the text, terminates (variant: free index slots) '
          'and returns 0/-1; BodyReadStream::read delivers first the buffered bytes then the stream, never more than '
          'min(request, Content-Length remaining) and keeps the remaining-length accounting exact.  A native run checks on the real '
-         'Headers parser that the parse of a text never depends on bytes outside it.',
-    note=TRUST + ' Not decided: header-terminator search across fragments (Message::append_bytes), start-line/URL parsing and header lookup '
-         '(estring_view, std::sort), chunked transfer coding reader/writer, "same parse for every fragmentation" beyond these kernels.',
+         'Headers parser that the parse of a text never depends on bytes outside it, and a second native campaign (frag) parses the same '
+         'response bytes with the real Response class under every two-way split and random multi-way splits (content-length, chunked, '
+         'keep-alive back-to-back): status, headers, body, end-of-body and the position of the next message must not depend on the split.',
+    note=TRUST + ' Not decided by contract (native campaign only): header-terminator search across fragments (Message::append_bytes), chunked '
+         'transfer coding reader; not decided at all: start-line/URL parsing and header lookup (estring_view, std::sort), body writers.',
     technique='deductive verification: Hoare loop rule + loop-free full-domain CBMC harnesses on mechanically lowered real code; native replay',
     design='§6 C13')
 CLAIMED['C02'] = dict(
@@ -102,9 +116,13 @@ CLAIMED['C02'] = dict(
          'Proved for all counts: try_subtract returns true exactly when this call took `count` tokens once and false only after observing '
          'fewer than `count`; signal adds exactly `count` once and then resumes with the new value under the lock; wait returns 0 only after '
          'taking exactly `count`, a failed wait takes nothing, restores errno, clears the published demand, releases the lock on every path, '
-         'queues the waiter while still holding the lock, and in in-order mode passes on the tokens it was blocking.  A single-step lemma shows '
-         'these transitions preserve count == initial + signalled - taken.',
-    note=TRUST + ' NOT decided: no-lost-wake-up as a liveness property, which waiters try_resume wakes, safe destruction after wait returns, '
+         'queues the waiter while still holding the lock, in in-order mode passes on the tokens it was blocking when it fails, and also when '
+         'it was resumed but must sleep again because a non-queued wait() took the tokens.  try_resume (Hoare loop rule over an abstract wait '
+         'queue): the in-order pass stops only at an empty queue or at a head whose demand exceeds what is left, wakes only covered demands '
+         'with reason -1 under thread.lock.  A single-step lemma shows these transitions preserve count == initial + signalled - taken.  A native '
+         'campaign runs random single-vCPU histories on the real semaphore.  KNOWN FINDING (known_findings.txt): the out-of-order resume scan '
+         'self-deadlocks on the wait-queue lock.',
+    note=TRUST + ' NOT decided: no-lost-wake-up across vCPUs as a liveness property, safe destruction after wait returns, '
          'cross-thread timing; atomics are modelled sequentially consistent; other threads are assumed to write the count only while holding '
          'splock (closed world over signal/wait_interruptible); "invariant preserved by every atomic step => holds in every interleaving" is a '
          'paper argument.',
@@ -118,7 +136,9 @@ CLAIMED['C06'] = dict(
          'writer; writer: nobody), a failed lock never touches it and restores the thread mark, a newcomer waits behind queued waiters, unlock '
          'moves the state one step toward 0 and admits one writer or the whole run of readers at the head only when it reaches 0; every qrwlock '
          'write is one of the four allowed transitions, try-lock results tell the truth about the transition made (failure only on an observed '
-         'reason), lock() returns 0 only after a successful try and -1 without any transition, unlock of an unlocked lock is -1/ENOLCK.  '
+         'reason), lock() returns 0 only after a successful try and -1 without any transition, unlock of an unlocked lock is -1/ENOLCK; '
+         'when an unlock makes the qrwlock free, a queued writer (exactly one) or, with no writer queued, ALL queued readers are resumed '
+         '(try_wake lowered, notifications under the spinlock).  '
          'Lemma: the allowed transitions preserve writers-exclusive / readers-shared.',
     note=TRUST + ' NOT decided: admission after the last unlock as a liveness property, timeouts racing with admission across context '
          'switches, memory ordering (sequentially consistent model), the shared instantiation of do_lock; the rely (other threads perform only '
@@ -134,8 +154,12 @@ CLAIMED['C07'] = dict(
          'free -> written -> read == free-for-next-lap, two positions sharing a slot differ in turn.  Step contracts (Hoare loop rule on the '
          'retry loops, under an interference model): push/pop write or read data only in the slot whose position this call claimed by winning '
          'the CAS on tail/head (which advances by exactly one), publish exactly once with the mark of the claimed position, and a refused '
-         'call claims and writes nothing.',
-    note=TRUST + ' NOT decided: FIFO per producer and exactly-once delivery as whole-history properties, send/recv, the SPSC and batch queues, the '
+         'call claims and writes nothing.  LockfreeBatchMPMCRingQueue::push_batch / pop_batch: the claimed range is non-empty, never laps '
+         'unread / unpublished elements for ANY counter values incl. 64-bit wrap-around (tail-head <= capacity kept as a guarantee), element J '
+         'of the batch lives in the slot of position claim+J, publication / completion happens once, in claim order, after the copy.  '
+         'LockfreeSPSCRingQueue push / pop / produce_push_batch(_fully) / consume_pop_batch: refusal only on an observed full / empty ring, '
+         'data in the slot of the current position, the own counter moves forward by the accepted count after the data, never past the other side.',
+    note=TRUST + ' NOT decided: FIFO per producer and exactly-once delivery as whole-history properties, send/recv pause loops, the '
          'RingChannel/FlexRingChannel notification protocol (memory-model and schedule facts); sequentially consistent atomics; rely: tail/head only '
          'grow and a slot is written by another thread only between its own claim and publication.',
     technique='deductive verification: bit-vector lemmas + step contracts under an interference (rely) model, CBMC on mechanically lowered real code',
@@ -161,7 +185,8 @@ CLAIMED['C03'] = dict(
          'part of going to sleep and ALWAYS returns with the lock held again (it retries until lock() succeeds); it returns 0 when woken with '
          'the notification reason, -1/ETIMEDOUT when the sleep ran to its deadline, and -1 with the sleeper\'s errno (not the re-lock\'s) '
          'otherwise; wait without a lock is refused.  notify_one wakes exactly one queued waiter (none only if there was none) and notify_all '
-         'wakes every queued waiter and reports their number.',
+         'wakes every queued waiter and reports their number.  (prepare_usleep, which queues the waiter under the queue lock and thread.lock, '
+         'is proved under C04.)',
     note=TRUST + ' NOT decided: atomic release-and-wait (it is the deferred unlock executed on the next thread\'s stack: assembly + scheduler), '
          '"wakes exactly one thread that was waiting at that moment" across vCPUs, timeouts racing with notifications.',
     technique='deductive verification: Hoare loop rule + stubs with stated contracts, CBMC on mechanically lowered real code',
@@ -174,9 +199,14 @@ CLAIMED['C10'] = dict(
          '-1 on error, otherwise exactly the bytes transferred, the full count unless EOF was seen, never ask for 0 bytes after the first '
          'transfer, and terminate; add_interest/rm_interest keep the registered set equal to the union / difference, never change the other '
          'direction\'s waiter, refuse to take over a direction registered for other data, arm exactly the union in the kernel, and change '
-         'nothing when refused or failed.',
-    note=TRUST + ' NOT decided: exactly-once ordered bytes end to end (kernel sockets), engine/scheduler interplay (a readiness event or timeout '
-         'of one waiter never wakes or starves another), BufStepV, wait_for_events / wait_for_fd, epoll-ng, timing of timeouts.',
+         'nothing when refused or failed; rm_interest re-arms exactly the directions that stay registered (the other waiter on the fd is not left '
+         'disarmed) and deletes an fd with nothing left.  wait_for_fd: one one-shot interest with the caller as data, one sleep, 0 exactly when '
+         'woken by the event loop, otherwise its own interest is removed and errno is ETIMEDOUT / the interrupter\'s.  The dispatch loop '
+         'wait_for_events(timeout, datacb, fdcb) (Hoare loop rule): a waiter is fired at most once per event, only for a direction the kernel '
+         'reported AND that is still registered, with that direction\'s data; fired one-shot directions - exactly those - are disarmed.  '
+         'KernelSocketStream::read/write/readv/writev: all partial transfers of one call share one deadline = entry time + stream timeout.',
+    note=TRUST + ' NOT decided: exactly-once ordered bytes end to end (kernel sockets), engine/scheduler interplay as a history, BufStepV, '
+         'do_epoll_wait\'s retry loop, epoll-ng / io_uring engines.',
     technique='deductive verification: Hoare loop rule + loop-free full-domain CBMC harnesses on mechanically lowered real code, system calls as stubs',
     design='§6 C10')
 NA = {}
